@@ -251,6 +251,9 @@ def gen_case(rng, tier):
             else:
                 sd["steps"] = row_major_steps(tb2)
             second["sides"][i if sd.get("overlapping") else rng.choice([i, i, 1 - i])] = sd
+        if case["sides"][0]["kind"] == "tsl" and not case["sides"][0].get("overlapping") and rng.random() < 0.4:
+            # ... or the second copy reads the same tiled buffer as the first one (into another destination)
+            second = {"tb": tb, "sides": [case["sides"][0], gen_side(rng, tb, False, 0)], "same_source": True}
         case["second"] = second
     return case
 
@@ -287,7 +290,10 @@ def side_type(case, side):
 
 
 def second_case(case):
-    return dict(case, tb=case["second"]["tb"], sides=case["second"]["sides"], second=None, env=dict(case["env"], base=[b + 0x40000 for b in case["env"]["base"]]))
+    base = [b + 0x40000 for b in case["env"]["base"]]
+    if case["second"].get("same_source"):
+        base[0] = case["env"]["base"][0]
+    return dict(case, tb=case["second"]["tb"], sides=case["second"]["sides"], second=None, same_source=bool(case["second"].get("same_source")), env=dict(case["env"], base=base))
 
 
 def emit(case):
@@ -297,7 +303,7 @@ def emit(case):
         c, d = (side_type(c2, s) for s in c2["sides"])
         return (
             f'builtin.module {{\n  func.func @f(%a : {a}, %b : {b}, %c : {c}, %d : {d}) {{\n    "memref.copy"(%a, %b) : ({a}, {b}) -> ()\n'
-            f'    "memref.copy"(%c, %d) : ({c}, {d}) -> ()\n    func.return\n  }}\n}}'
+            f'    "memref.copy"({"%a" if case["second"].get("same_source") else "%c"}, %d) : ({c}, {d}) -> ()\n    func.return\n  }}\n}}'
         )
     return f'builtin.module {{\n  func.func @f(%a : {a}, %b : {b}) {{\n    "memref.copy"(%a, %b) : ({a}, {b}) -> ()\n    func.return\n  }}\n}}'
 
@@ -337,7 +343,7 @@ def execute(case):
             lay.append((cs, tb, steps))
             shape = shape_of(tb)
             fp = m.src_fp if i == 0 else m.dst_fp
-            for idx in all_indices(shape):
+            for idx in all_indices(shape) if not (i == 0 and cs.get("same_source")) else ():
                 a = cs["env"]["base"][i] + address(idx, tb, steps, side["off"]) * eb
                 for j in range(eb):
                     if (a + j) in fp and not (i == 0 and side.get("overlapping")):
@@ -366,7 +372,7 @@ def execute(case):
             a = cs["env"]["base"][1] + address(idx, tb, steps, side["off"]) * eb
             sa = cs["env"]["base"][0] + address(idx, stb, ssteps, cs["sides"][0]["off"]) * eb
             for j in range(eb):
-                if m.mem[a + j] != ("src", which, sa + j):
+                if m.mem[a + j] != ("src", 0 if cs.get("same_source") else which, sa + j):
                     out.update(status="violation", oracle="element-position", message=f"copy {which}: logical element {idx} byte {j}: destination address {a + j:#x} holds {m.mem[a + j]!r}")
                     return out
     out["steps"] = m.steps
